@@ -85,8 +85,10 @@ coap_new_client_session_oscore_lkd(coap_context_t *ctx,
   coap_session_t *session =
       coap_new_client_session_lkd(ctx, local_if, server, proto);
 
-  if (!session)
+  if (!session) {
+    coap_delete_oscore_conf(oscore_conf);
     return NULL;
+  }
 
   if (coap_oscore_initiate(session, oscore_conf) == 0) {
     coap_session_release_lkd(session);
@@ -123,8 +125,10 @@ coap_new_client_session_oscore_psk_lkd(coap_context_t *ctx,
   coap_lock_check_locked(ctx);
   session = coap_new_client_session_psk2_lkd(ctx, local_if, server, proto, psk_data);
 
-  if (!session)
+  if (!session) {
+    coap_delete_oscore_conf(oscore_conf);
     return NULL;
+  }
 
   if (coap_oscore_initiate(session, oscore_conf) == 0) {
     coap_session_release_lkd(session);
@@ -161,8 +165,10 @@ coap_new_client_session_oscore_pki_lkd(coap_context_t *ctx,
   coap_lock_check_locked(ctx);
   session = coap_new_client_session_pki_lkd(ctx, local_if, server, proto, pki_data);
 
-  if (!session)
+  if (!session) {
+    coap_delete_oscore_conf(oscore_conf);
     return NULL;
+  }
 
   if (coap_oscore_initiate(session, oscore_conf) == 0) {
     coap_session_release_lkd(session);
